@@ -148,6 +148,7 @@ def enumerated(tier, seed):
     # symbols whose names are made of register letters or begin like a register / mnemonic (AB, ABD, XY, PCRX, CCR ...):
     # a name is a name, whatever it looks like
     yield from tricky_name_cases()
+    yield from wide_inherent_cases()
     if tier == "thorough":
         full = list(range(0, 65536)) + list(range(-32768, 0))
         for mn in ("LDA", "LDX", "LDY", "LEAX", "STA", "CMPD", "JMP"):
@@ -207,6 +208,20 @@ def tricky_name_cases():
         body = [dict(u, lab="") for u in uses if u["k"] != "imm8"]
         stmts = [{"lab": "", "k": "org", "addr": 0x2000}, {"lab": name, "k": "inh", "mn": "NOP"}] + body + [{"lab": "ZZL", "k": "inh", "mn": "NOP"}]
         yield dict(form="labelpair", pair={"org": 0x2000, "stmts": stmts})
+
+
+def wide_inherent_cases():
+    """SWI2 / SWI3 (the two-byte inherent instructions) between references to a label and the label itself: everything
+    behind them is one byte further than behind a one-byte inherent instruction"""
+    sym = {"sym": "TARGET", "op": "", "c": 0}
+    for mn in ("SWI2", "SWI3", "SWI", "NOP"):
+        for org in (0x0010, 0x1000):
+            stmts = [{"lab": "", "k": "org", "addr": org}, {"lab": "", "k": "br", "mn": "BRA", "to": "TARGET"}, {"lab": "", "k": "inh", "mn": mn},
+                     {"lab": "", "k": "imm16", "mn": "LDX", "val": sym}, {"lab": "", "k": "mem", "mn": "JMP", "val": sym, "force": ""},
+                     {"lab": "", "k": "pcr", "mn": "LEAX", "ind": False, "val": sym}, {"lab": "", "k": "inh", "mn": mn},
+                     {"lab": "", "k": "fdb", "vals": [sym]}, {"lab": "TARGET", "k": "inh", "mn": "RTS"},
+                     {"lab": "", "k": "inh", "mn": mn}, {"lab": "", "k": "br", "mn": "LBSR", "to": "TARGET"}, {"lab": "ZZL", "k": "inh", "mn": "NOP"}]
+            yield dict(form="labelpair", pair={"org": org, "stmts": stmts})
 
 
 def execute_pair(case):
